@@ -492,6 +492,8 @@ pub struct State {
     pub doc: Document,
     pub content: Vec<Vec<Vec<u8>>>,
     pub counts_held: bool,
+    /// numbers handed out by new_object_id() and not stored yet: no later allocation may hand them out again
+    pub reserved: BTreeSet<u32>,
     pub history: Vec<String>,
 }
 
@@ -584,7 +586,10 @@ pub fn step(st: &mut State, r: &mut Rng) -> Viol {
             label = "new_object_id".into();
             let id = guard!(st.doc.new_object_id(), "new_object_id");
             let s1 = snapshot(&st.doc);
-            fresh_violation(&s0, id, "new_object_id").or_else(|| unchanged_except(&s0, &s1, &none, &none, &|_| false, "new_object_id"))
+            let again = !st.reserved.insert(id.0);
+            fresh_violation(&s0, id, "new_object_id")
+                .or_else(|| if again { Some(("new_object_id/handed-out-twice".into(), format!("new_object_id returned {:?} a second time", id))) } else { None })
+                .or_else(|| unchanged_except(&s0, &s1, &none, &none, &|_| false, "new_object_id"))
         }
         1 => {
             label = "add_object".into();
@@ -592,6 +597,7 @@ pub fn step(st: &mut State, r: &mut Rng) -> Viol {
             let id = guard!(st.doc.add_object(to_lo(&o)), "add_object");
             let s1 = snapshot(&st.doc);
             fresh_violation(&s0, id, "add_object")
+                .or_else(|| if st.reserved.contains(&id.0) { Some(("add_object/reserved-id".into(), format!("add_object used {:?}, which new_object_id had handed out before", id))) } else { None })
                 .or_else(|| if s1.objects.get(&id).map(|x| robj_eq(&o, x)) != Some(true) { Some(("add_object/stored".into(), "added object is not stored under the returned id".into())) } else { None })
                 .or_else(|| unchanged_except(&s0, &s1, &none, &none, &|x| *x == id, "add_object"))
         }
@@ -816,6 +822,8 @@ pub fn step(st: &mut State, r: &mut Rng) -> Viol {
             let start = *r.pick(&[1u32, 1, 2, 50, 1000]);
             let before = st.doc.clone();
             guard!(if start == 1 { st.doc.renumber_objects() } else { st.doc.renumber_objects_with(start) }, "renumber_objects");
+            // (numbers handed out before a renumbering mean nothing afterwards)
+            st.reserved.clear();
             let vs = crate::props::c10::check(&before, &st.doc, start, start == 1);
             // dangling references that start to resolve are C10's known finding, not an editing-soundness clause
             vs.into_iter().find(|(s, _)| s != "dangling-resolves").map(|(s, w)| (format!("renumber/{}", s), w))
@@ -1018,6 +1026,11 @@ pub fn step(st: &mut State, r: &mut Rng) -> Viol {
             if viol.is_none() && out.is_none() {
                 viol = Some(("build_outline/none".into(), "build_outline returned None although bookmarks were pending".into()));
             }
+            if viol.is_none() {
+                if let Some(x) = s1.objects.keys().find(|x| !s0.objects.contains_key(x) && st.reserved.contains(&x.0)) {
+                    viol = Some(("build_outline/reserved-id".into(), format!("build_outline numbered an outline object {:?}, an identifier new_object_id had handed out before", x)));
+                }
+            }
             if viol.is_none() && s1.objects.keys().any(|x| x.0 > st.doc.max_id) {
                 viol = Some(("build_outline/max_id".into(), "max_id is below an object number created by build_outline".into()));
             }
@@ -1040,6 +1053,7 @@ pub fn step(st: &mut State, r: &mut Rng) -> Viol {
                     exp.objects.retain(|_, o| !container_typed(o));
                     let diffs = diff_docs(&exp, &got, false, &|_, o| is_xref_stream_obj(o));
                     st.doc = l;
+                    st.reserved.clear();
                     diffs.first().map(|(_, dd)| ("save/content".to_string(), format!("save + reload changed the document: {}", dd)))
                 }
             }
@@ -1222,7 +1236,7 @@ pub fn exec_program(init: &ProgInit, seed: u64, shard: u64, index: u64, out: Opt
             // container objects of the file are ordinary (unreachable) objects from here on
         }
     }
-    let mut st = State { doc, content: init.content.clone(), counts_held: true, history: vec![] };
+    let mut st = State { doc, content: init.content.clone(), counts_held: true, reserved: BTreeSet::new(), history: vec![] };
     let s_init = snapshot(&st.doc);
     if let Some((sig, what)) = check_global(&st, &s_init, "initial") {
         return Some(Finding { signature: format!("C11/harness-initial/{}", sig), what, witness: init.to_json(seed, shard, index, &[]) });
